@@ -463,6 +463,8 @@ pub struct FaultPlan {
     pub fail_all: bool,
     /// Keys whose every set / remove fails (a backend that cannot write one particular entry).
     pub fail_keys: Vec<String>,
+    /// If set, `fail_keys` only apply to mutating operations with index in [from, to) (a transient fault).
+    pub fail_keys_window: Option<(u64, u64)>,
 }
 
 #[derive(Default)]
@@ -490,8 +492,10 @@ impl StorageState {
         self.fault.fail_all || self.fault.fail_ops.contains(&i)
     }
     pub fn next_key_op_fails(&mut self, key: &str) -> bool {
+        let i = self.mut_ops;
         let f = self.next_op_fails();
-        f || self.fault.fail_keys.iter().any(|k| k == key)
+        let in_window = self.fault.fail_keys_window.map(|(a, b)| i >= a && i < b).unwrap_or(true);
+        f || (in_window && self.fault.fail_keys.iter().any(|k| k == key))
     }
     pub fn apply_commit(&mut self) {
         let pend = std::mem::take(&mut self.pending);
@@ -693,6 +697,8 @@ pub struct CheckScript {
     /// The installer hands its LAST progress value over (creates the report future and polls it once)
     /// but does not wait for the observer before finishing.
     pub detach_last_progress: bool,
+    /// the installer never waits for a progress report: every report future is polled once and dropped
+    pub detach_all_progress: bool,
     /// perform_reboot returns an error (the device did not reboot)
     pub reboot_fails: bool,
     /// The clocks are stepped by (wall ns, mono ns) while the install runs (a time sync arriving during the
@@ -712,6 +718,7 @@ impl Default for CheckScript {
             reboot_needed: false,
             reboot_allowed: vec![],
             detach_last_progress: false,
+            detach_all_progress: false,
             reboot_fails: false,
             install_clock_step: None,
         }
